@@ -359,9 +359,9 @@ Definition step_group_free (t : topo) (g : gspec) : topo * result :=
 Definition step (t : topo) (c : call) : topo * result :=
   match c with
   | CMisc p name => step_misc t p name
-  | CInfoAdd g n v => match step_info_mod t g HWLOC_MODIFY_INFOS_OP_ADD n v with
-                      | (t', RInt _) => (t', RInt 0)      (* hwloc_obj_add_info returns 0 on success *)
-                      | r => r end
+  | CInfoAdd g n v => step_info_mod t g HWLOC_MODIFY_INFOS_OP_ADD n v
+      (* the inline hwloc_obj_add_info returns hwloc_modify_infos(..., OP_ADD, ...) unchanged: 1 on success
+         (its documentation says 0) *)
   | CInfoMod g op n v => step_info_mod t g op n v
   | CTInfoMod op n v => let '(l, r) := modify_infos (m_tinfos t) op n v in (set_tinfos t l, r)
   | CSubtype g s => step_subtype t g s
@@ -394,6 +394,21 @@ Definition hist_check (before after : dump) (may_remove : bool) : list viol :=
   (if may_remove then [] else
    flat_map (fun g => chk (match find_by_gp after g with Some _ => true | None => false end) "object-vanished-without-restrict" g)
             (dump_gps before)).
+
+(* a dont_merge Group is never merged away (the keep-structure pass of restrict must skip it): it is a
+   violation when such a Group vanished although one of its normal children survives *)
+Definition dm_vanish_check (before after : dump) (dms : list N) : list viol :=
+  flat_map (fun o => match o_gp o, deref before (o_parent o) with
+                     | Some g, Some p =>
+                         match o_gp p with
+                         | Some pg =>
+                             chk (negb ((o_type p =? HWLOC_OBJ_GROUP) && existsb (N.eqb pg) dms && is_normal (o_type o)
+                                        && is_some (find_by_gp after g) && negb (is_some (find_by_gp after pg))))
+                                 "dontmerge-group-merged-away" pg
+                         | None => []
+                         end
+                     | _, _ => []
+                     end) (t_objs before).
 
 (* userdata presence per gp_index before/after *)
 Definition ud_check (before after : list (N * bool)) : list viol :=
